@@ -777,3 +777,46 @@ M("c12_reserve_swallows_overflow", ["C12", "C07"], ["C12.R2", "C07.R5"], [
     ("src/raw_bump.rs", """                let new_chunk = NonDummyChunk::<A, S>::new(
                     ChunkSize::<A, S>::from_capacity(layout).ok_or_else(E::capacity_overflow)?,""", """                let new_chunk = NonDummyChunk::<A, S>::new(
                     ChunkSize::<A, S>::from_capacity(layout).unwrap_or(ChunkSize::MINIMUM),""")])
+
+# ---------------------------------------------------------------- C16
+M("c16_fixed_split_off_rhs_cap_is_len", ["C16"], ["C16.R1"], [
+    ("src/fixed_bump_vec.rs", """                let lhs_cap = start;
+                let rhs_cap = self.capacity - lhs_cap;
+
+                self.set_ptr(lhs);""", """                let lhs_cap = start;
+                let rhs_cap = rhs_len;
+
+                self.set_ptr(lhs);""")])
+M("c16_merge_without_contiguity_check", ["C16"], ["C16.R1"], [
+    ("src/bump_box.rs", """            if self.as_ptr_range().end != other.as_ptr() {
+                assert_failed();
+            }""", """            if self.as_ptr_range().end != other.as_ptr() && self.len() == usize::MAX {
+                assert_failed();
+            }""")])
+M("c16_split_off_rotate_arm_wrong_len", ["C16"], ["C16.R1"], [
+    ("src/bump_box.rs", """                let lhs = NonNull::slice_from_raw_parts(ptr, range_len);
+                let rhs = NonNull::slice_from_raw_parts(ptr.add(range_len), remaining_len);
+
+                self.ptr = rhs;""", """                let lhs = NonNull::slice_from_raw_parts(ptr, range_len);
+                let rhs = NonNull::slice_from_raw_parts(ptr.add(range_len), tail_len);
+
+                self.ptr = rhs;""")])
+M("c16_split_last_overlaps", ["C16"], ["C16.R1"], [
+    ("src/bump_box.rs", """                BumpBox::from_raw(ptr.add(len_minus_one)),
+                BumpBox::from_raw(NonNull::slice_from_raw_parts(ptr, len_minus_one)),""", """                BumpBox::from_raw(ptr.add(len_minus_one)),
+                BumpBox::from_raw(NonNull::slice_from_raw_parts(ptr, this.len())),""")])
+M("c16_split_at_spare_len_is_cap", ["C16"], ["C16.R1"], [
+    ("src/fixed_bump_vec.rs", "let uninitialized_len = self.capacity - self.len();", "let uninitialized_len = self.capacity;")])
+M("c16_str_split_off_skips_end_boundary", ["C16", "C09"], ["C16.R2", "C09.R1"], [
+    ("src/bump_box.rs", """        self.assert_char_boundary(start);
+        self.assert_char_boundary(end);""", """        self.assert_char_boundary(start);""")])
+M("c16_split_at_wrong_bound", ["C16"], ["C16.R2"], [
+    ("src/bump_box.rs", """        if at > self.len() {
+            assert_failed(at, self.len());
+        }
+
+        // SAFETY: `[ptr; mid]`""", """        if at > self.len() + 1 {
+            assert_failed(at, self.len());
+        }
+
+        // SAFETY: `[ptr; mid]`""")])
